@@ -6,13 +6,13 @@ S.add(Length(d) == 1, PrefixOf(d, l), Not(Contains(a, d)), Not(Contains(b, d)))
 S.add(Concat(a, l, r) == Concat(b, l, s_))
 S.add(a != b)
 t = time.time(); print("z3 step lemma:", S.check(), round(time.time() - t, 2))
-open("/tmp/probe/step.smt2", "w").write("(set-logic QF_SLIA)\n" + S.to_smt2())
-t = time.time(); out = subprocess.run(["/usr/bin/cvc5", "--strings-exp", "--tlimit=20000", "/tmp/probe/step.smt2"], capture_output=True, text=True).stdout.strip(); print("cvc5 step lemma:", out, round(time.time() - t, 2))
+open("/tmp/step.smt2", "w").write("(set-logic QF_SLIA)\n" + S.to_smt2())
+t = time.time(); out = subprocess.run(["/usr/bin/cvc5", "--strings-exp", "--tlimit=20000", "/tmp/step.smt2"], capture_output=True, text=True).stdout.strip(); print("cvc5 step lemma:", out, round(time.time() - t, 2))
 # position formulation: a is determined as prefix up to first index of d
 S2 = Solver(); S2.set(timeout=20000)
 p = String('p')
 S2.add(Length(d) == 1, PrefixOf(d, l), Not(Contains(a, d)), p == Concat(a, l, r))
 S2.add(Not(a == SubString(p, 0, IndexOf(p, d, 0))))
 t = time.time(); print("z3 position lemma:", S2.check(), round(time.time() - t, 2))
-open("/tmp/probe/pos.smt2", "w").write("(set-logic QF_SLIA)\n" + S2.to_smt2())
-t = time.time(); out = subprocess.run(["/usr/bin/cvc5", "--strings-exp", "--tlimit=20000", "/tmp/probe/pos.smt2"], capture_output=True, text=True).stdout.strip(); print("cvc5 position lemma:", out, round(time.time() - t, 2))
+open("/tmp/pos.smt2", "w").write("(set-logic QF_SLIA)\n" + S2.to_smt2())
+t = time.time(); out = subprocess.run(["/usr/bin/cvc5", "--strings-exp", "--tlimit=20000", "/tmp/pos.smt2"], capture_output=True, text=True).stdout.strip(); print("cvc5 position lemma:", out, round(time.time() - t, 2))
